@@ -135,7 +135,7 @@ def run_rerun(tape):
     if spec.get('later_start_none'):
       from workloads import bodies as _b
       probes['later_runs_without_trigger'] = 1
-      own = set(_b.PLUGS[''][pi].__name__ for ph in gen.all_phase_specs(spec) for pi in ph['plugs'].values())
+      own = set(_b.PLUGS[''][pi].LABEL for ph in gen.all_phase_specs(spec) for pi in ph['plugs'].values())
       for j in range(1, len(runs)):
         built = set(e[4] for e in log[bounds[j]:bounds[j + 1]] if e[3] == 'plug_ctor')
         if not built <= own:
